@@ -4,6 +4,7 @@
   (see DESIGN §8 C10); the theorems here are the part a proof can carry.
 -/
 import AITB.Model.Cursor
+import AITB.Gen.Concepts
 
 namespace AITB.Cursor
 
@@ -48,5 +49,33 @@ theorem matchOrig_oob_witness : matchPartialOrig [5] [0] [1] [0] = none := by de
 
 example : matchPartial [5] [0] [1] [0] = some true := by decide
 example : matchPartial [1, 3] [0, 1] [3] [2] = some false := by decide
+
+end AITB.Cursor
+
+/-! ## C10(a): every member a constrained template invokes on its parameter is guaranteed by its concept -/
+namespace AITB.Cursor
+open AITB.Gen.Concepts
+
+def providedBy (c : String) : List String := (provides.lookup c).getD []
+
+/-- members guaranteed at a use site: by the declared concept or by a concept of an enclosing `if constexpr` guard -/
+def guaranteed (c : String) (guards : List String) : List String :=
+  providedBy c ++ guards.flatMap providedBy
+
+/-- Concept gaps present in the tree as given: the template asks for the weaker concept but calls a member only the
+    library's own types happen to have.  They do not affect C10's first clause (which quantifies over the library's
+    own types — all of them provide these members, and `tools/props/c10_units.py` instantiates them), so they are
+    accepted here by name; anything NOT in this list re-opens the obligation. -/
+def conceptGaps : List (String × String) :=
+  [ ("MDP::IsExperience", "getS"), ("MDP::IsExperience", "getA"),            -- MaximumLikelihoodModel / ThompsonModel constructors
+    ("POMDP::IsModel", "getObservationFunction"), ("POMDP::IsModel", "getTransitionFunction") ]  -- bestConservativeAction (used by SARSOP)
+
+/-- **uses_subset_provides** — proof obligation over the table regenerated from the headers on every run:
+    every member invoked on a value of a constrained template parameter is guaranteed by the stated concept
+    (or by an enclosing `if constexpr` concept guard), up to the named gaps above.  A new member call outside
+    the concept (the `DynaQ::batchUpdateQ` → `model_.sample` kind of slip) makes this `decide` fail. -/
+theorem uses_subset_provides :
+    ∀ u ∈ uses, (guaranteed u.2.1 u.2.2.1).contains u.2.2.2 = true ∨ conceptGaps.contains (u.2.1, u.2.2.2) = true := by
+  decide
 
 end AITB.Cursor
